@@ -105,7 +105,10 @@ def cancel_family(chk, sess, n):
 
 def run(chk):
     sess = K.Session(chk)
-    chk.proof_gate()
+    chk.proof_gate(also=["impl"])
+    # small-step model of the engine loop (Engine/Impl.v): exact-interleaving tie, theorems of Props/Properties_impl.v
+    import props.impl as impl
+    impl.phase(chk, {"hist"}, nhist=chk.n(40, 1000))
     n = chk.n(150, 6000)
     for i, L in enumerate(CORPUS):
         one_history(chk, sess, L, "corpus%d" % i, "corpus")
